@@ -1,9 +1,9 @@
 \* the code as it is (no repair): the Machine violates X01_MovedExactly (package line of a moved file that declares a
-\* nested class or is an enum; "\r" of rewritten lines; with Histories <- HistoriesMulti: the copy made before a later
+\* nested class or is an enum; "\r" of rewritten lines; with Pool = "multi": the copy made before a later
 \* move).  Not part of a check; `tlc -continue` + INVARIANT ShowDiff lists every violating history.
 SPECIFICATION Spec
 CONSTANTS
-  Histories <- HistoriesLayoutQuick
+  Pool = "layout-quick"
   NameRule = "last-decl"
   CopyNode = FALSE
   KeepCR = FALSE
